@@ -69,7 +69,7 @@ def gen_acl(rng, tier, seed):
         elif r < 0.82:
             ops.append(['settle'])
         else:
-            ops.append(['bad', d, rng.choice(['cont_no_start', 'beyond_length', 'start_over_start', 'short_start', 'exact_then_extra']),
+            ops.append(['bad', d, rng.choice(['cont_no_start', 'beyond_length', 'start_over_start', 'short_start', 'exact_then_extra', 'interrupted_then_completed']),
                         rng.choice(['host', 'host', 'controller'])])
     faults_on = rng.random() < 0.65
     if not faults_on:
@@ -303,6 +303,14 @@ def run_acl(case):
                 send(acl(h, 2 if where == 'host' else 0, struct.pack('<HH', 50, cid) + b'\x03' * 5))
             elif kind == 'short_start':
                 send(acl(h, 2 if where == 'host' else 0, b'\x07'))
+            elif kind == 'interrupted_then_completed':
+                # the start of a PDU that is never finished, a complete well-formed PDU in one packet (it arrives), then a stray
+                # continuation that would have completed the abandoned one exactly: nothing may be built from the two halves
+                good = b'\x06' * 7
+                expected[rx].append((BASE_CID + 10, good))
+                send(acl(h, 2 if where == 'host' else 0, struct.pack('<HH', 20, cid) + b'\x11' * 8))
+                send(acl(h, 2 if where == 'host' else 0, struct.pack('<HH', len(good), BASE_CID + 10) + good))
+                send(acl(h, 1, b'\xee' * 12))
             elif kind == 'exact_then_extra':
                 # a complete, well-formed PDU followed by a stray continuation: the PDU must arrive, the stray not
                 good = b'\x04' * 6
